@@ -10,6 +10,17 @@ IV = VEC + '{impl Vector}::'
 
 TYPES = [VEC + '{struct Vector}', MAT + '{struct Matrix}']
 
+TYPE_SPEC = r'''
+// std's reflexive `impl<T> From<T> for T` for Vector (TRUSTED)
+#[verifier::external_body]
+pub broadcast proof fn ax_vector_into_refl(v: Vector)
+    ensures #[trigger] <Vector as vstd::std_specs::convert::IntoSpec<Vector>>::into_spec(v) == v {}
+#[verifier::external_body]
+pub broadcast proof fn ax_vector_into_obeys()
+    ensures #[trigger] <Vector as vstd::std_specs::convert::IntoSpec<Vector>>::obeys_into_spec() {}
+pub broadcast group ax_vector_refl { ax_vector_into_refl, ax_vector_into_obeys }
+'''
+
 # specification vocabulary shared by every unit that talks about matrices
 CORE_SPEC = r'''
 pub open spec fn i32max() -> int { 0x7fff_ffff }
@@ -37,6 +48,14 @@ pub proof fn lemma_idx(i: int, j: int, nrows: int, ncols: int)
     assert((i + 1) * ncols <= nrows * ncols) by(nonlinear_arith) requires 0 <= i < nrows, 0 <= ncols;
     assert(0 <= i * ncols) by(nonlinear_arith) requires 0 <= i, 0 <= ncols;
 }
+pub proof fn lemma_row(i: int, nrows: int, ncols: int)
+    requires 0 <= i < nrows, 0 <= ncols
+    ensures 0 <= i * ncols <= (i + 1) * ncols <= nrows * ncols, (i + 1) * ncols == i * ncols + ncols
+{
+    assert((i + 1) * ncols <= nrows * ncols) by(nonlinear_arith) requires 0 <= i < nrows, 0 <= ncols;
+    assert(0 <= i * ncols <= (i + 1) * ncols) by(nonlinear_arith) requires 0 <= i, 0 <= ncols;
+    assert((i + 1) * ncols == i * ncols + ncols) by(nonlinear_arith);
+}
 pub proof fn lemma_idx_inj(i: int, j: int, i2: int, j2: int, ncols: int)
     requires 0 <= j < ncols, 0 <= j2 < ncols, i * ncols + j == i2 * ncols + j2
     ensures i == i2, j == j2
@@ -50,6 +69,15 @@ pub proof fn lemma_divmod(k: int, ncols: int)
 {
     assert(k == (k / ncols) * ncols + (k % ncols) && 0 <= k % ncols < ncols && 0 <= k / ncols) by(nonlinear_arith)
         requires 0 <= k, 0 < ncols;
+}
+pub proof fn lemma_div_facts(len: int, c: int)
+    requires 0 <= len, 0 < c
+    ensures 0 <= (len / c) * c <= len, ((len / c) * c == len) == (len % c == 0), 0 <= len / c <= len,
+            c * (len / c) == (len / c) * c
+{
+    assert(c * (len / c) == (len / c) * c) by(nonlinear_arith);
+    assert(0 <= (len / c) * c <= len && (((len / c) * c == len) == (len % c == 0)) && 0 <= len / c <= len) by(nonlinear_arith)
+        requires 0 <= len, 0 < c;
 }
 pub proof fn lemma_div_exact(len: int, c: int)
     requires 0 <= len, 0 < c, len % c == 0
@@ -132,11 +160,83 @@ reg(Fn(IM + 'reshape_mut', ret='r', valid=RM_VALID,
        hints=[('self.nrows = size / ncols as usize;', 'after', 'proof { lemma_div_exact(size as int, ncols as int); }'),
               ('self.ncols = size / nrows as usize;', 'after', 'proof { lemma_div_exact(size as int, nrows as int); }')]))
 
+
+# ---------------------------------------------------------------- derived constructors
+def _fill(name, val):
+    return Fn(IM + name, ret='m',
+              requires=['core.%s.range:: nrows <= i32max() && ncols <= i32max() && nrows * ncols <= i32max()' % name],
+              ensures=['C15.%s.valid:: nrows > 0 && ncols > 0' % name,
+                       'C15.%s.shape:: m.nrows == nrows && m.ncols == ncols && wf(m)' % name] +
+                      (['C15.%s.elem:: forall|k:int| 0 <= k < nrows * ncols ==> m.data.v@[k] == %s' % (name, val)] if val else []))
+reg(_fill('zeros', '0.0f64'))
+reg(_fill('ones', '1.0f64'))
+reg(_fill('with_shape', None))
+reg(Fn(IM + 'empty', ret='m', ensures=['C15.empty:: m.nrows == 0 && m.ncols == 0 && m.data.v@.len() == 0 && wf(m)']))
+reg(Fn(IM + 'is_square', ret='r', ensures=['C15.is_square:: r == (self.nrows == self.ncols)']))
+reg(Fn(IM + 'data', ret='r', ensures=['core.mdata:: *r == self.data']))
+reg(Fn(IM + 'to_vec', ret='r', ensures=['C15.to_vec:: r == self.data']))
+reg(Fn(IV + 'to_matrix', ret='m', requires=['core.to_matrix.range:: self.v@.len() <= i32max()'],
+       ensures=['C15.to_matrix.valid:: self.v@.len() > 0',
+                'C15.to_matrix.shape:: m.nrows == 1 && m.ncols == self.v@.len() && wf(m)',
+                'C15.to_matrix.data:: m.data == self']))
+reg(Fn(VEC + '{impl ::core::clone::Clone for Vector}::clone', ret='r', ensures=['core.vclone:: r.v@ == self.v@']))
+reg(Fn(MAT + '{impl ::core::clone::Clone for Matrix}::clone', ret='r',
+       ensures=['core.mclone:: r.data.v@ == self.data.v@ && r.nrows == self.nrows && r.ncols == self.ncols']))
+RS_VALID = 'shape_ok(self.data.v@.len() as int, nrows as int, ncols as int)'
+reg(Fn(IM + 'reshape', ret='m', valid=RS_VALID,
+       requires=['core.reshape.wf:: wf(*self)', 'core.reshape.i32range:: -i32max() <= (nrows as int) * (ncols as int) <= i32max()'],
+       ensures=['C15.reshape.valid:: ' + RS_VALID,
+                'C15.reshape.data:: m.data.v@ == self.data.v@',
+                'C15.reshape.nrows:: m.nrows == rows_of(self.data.v@.len() as int, nrows as int, ncols as int)',
+                'C15.reshape.ncols:: m.ncols == cols_of(self.data.v@.len() as int, nrows as int, ncols as int)',
+                'C15.reshape.wf:: wf(m)'],
+       panics={k: 'REJECT' for k in range(1, 5)},
+       hints=[('Matrix::new(self.data.clone(), newrows, newcols)', 'before',
+               'proof { if ncols > 0 { lemma_div_facts(size as int, ncols as int); } if nrows > 0 { lemma_div_facts(size as int, nrows as int); } }')]))
+reg(Fn(IV + 'reshape', ret='m', valid='shape_ok(self.v@.len() as int, nrows as int, ncols as int)',
+       requires=['core.vreshape.range:: self.v@.len() <= i32max()', 'core.vreshape.i32range:: -i32max() <= (nrows as int) * (ncols as int) <= i32max()'],
+       ensures=['C15.vreshape.valid:: shape_ok(self.v@.len() as int, nrows as int, ncols as int)',
+                'C15.vreshape.data:: m.data.v@ == self.v@',
+                'C15.vreshape.nrows:: m.nrows == rows_of(self.v@.len() as int, nrows as int, ncols as int)',
+                'C15.vreshape.ncols:: m.ncols == cols_of(self.v@.len() as int, nrows as int, ncols as int)',
+                'C15.vreshape.wf:: wf(m)']))
+
+# ---------------------------------------------------------------- Index / IndexMut (2-D and row indexing)
+IDX_ROW_COMP = '''impl vstd::std_specs::core::IndexSpecImpl<usize> for Matrix {
+    open spec fn index_req(&self, i: &usize) -> bool { wf(*self) && *i < self.nrows }
+}'''
+IDX_2D_COMP = '''impl vstd::std_specs::core::IndexSpecImpl<[usize; 2]> for Matrix {
+    open spec fn index_req(&self, ij: &[usize; 2]) -> bool { wf(*self) && ij[0] < self.nrows && ij[1] < self.ncols }
+}'''
+LEM_ROW = 'proof { lemma_idx(i as int, 0, self.nrows as int, self.ncols as int + 1); lemma_row(i as int, self.nrows as int, self.ncols as int); }'
+reg(Fn(MAT + '{impl Index<usize> for Matrix}::index', ret='r', valid='i < self.nrows', panics={1: 'REJECT'},
+       ensures=['C15.index.row:: r@ == self.data.v@.subrange(i * self.ncols, (i + 1) * self.ncols)'],
+       pre_body='proof { lemma_row(i as int, self.nrows as int, self.ncols as int); }', companion=IDX_ROW_COMP))
+reg(Fn(MAT + '{impl Index<[usize; 2]> for Matrix}::index', ret='r', valid='ij_[0] < self.nrows && ij_[1] < self.ncols',
+       panics={1: 'REJECT'}, ensures=['C15.index.2d:: *r == at2(self.data.v@, self.ncols as int, ij_[0] as int, ij_[1] as int)'],
+       hints=[('&self.data[', 'before', 'proof { lemma_idx(i as int, j as int, self.nrows as int, self.ncols as int); }')],
+       companion=IDX_2D_COMP))
+reg(Fn(MAT + '{impl IndexMut<usize> for Matrix}::index_mut', ret='r', valid='i < old(self).nrows', panics={1: 'REJECT'},
+       rewrites=[('&mut self.data[', '&mut self.data.as_mut_slice()[',
+                  "R18: Vec<T>'s IndexMut<Range> is defined by std as slice indexing of as_mut_slice(); vstd specifies only the slice form")],
+       ensures=['C15.index_mut.row:: r@ == old(self).data.v@.subrange(i * old(self).ncols, (i + 1) * old(self).ncols)',
+                'C15.index_mut.shape:: final(self).nrows == old(self).nrows && final(self).ncols == old(self).ncols',
+                'C15.index_mut.len:: final(r)@.len() == r@.len()',
+                'C15.index_mut.frame:: final(self).data.v@ == old(self).data.v@.subrange(0, i * old(self).ncols) + final(r)@ + old(self).data.v@.subrange((i + 1) * old(self).ncols, old(self).data.v@.len() as int)'],
+       pre_body='proof { lemma_row(i as int, self.nrows as int, self.ncols as int); }', companion='// IndexMut<usize>: precondition inherited from IndexSpecImpl<usize>'))
+reg(Fn(MAT + '{impl IndexMut<[usize; 2]> for Matrix}::index_mut', ret='r',
+       valid='ij_[0] < old(self).nrows && ij_[1] < old(self).ncols', panics={1: 'REJECT'},
+       ensures=['C15.index_mut.2d:: *r == at2(old(self).data.v@, old(self).ncols as int, ij_[0] as int, ij_[1] as int)',
+                'C15.index_mut.2d.shape:: final(self).nrows == old(self).nrows && final(self).ncols == old(self).ncols',
+                'C15.index_mut.2d.frame:: final(self).data.v@ == old(self).data.v@.update(ij_[0] * old(self).ncols + ij_[1], *final(r))'],
+       hints=[('&mut self.data[', 'before', 'proof { lemma_idx(i as int, j as int, self.nrows as int, self.ncols as int); }')],
+       companion='// IndexMut<[usize; 2]>: precondition inherited from IndexSpecImpl<[usize; 2]>'))
+
 CORE_PROVE = [F[k] for k in F]
 
 PRE = ('fax_l0', 'fmeth', 'stdspec')
 UNITS = [
-    Unit('C15_core', 'C15', CORE_PROVE, types=TYPES, spec=CORE_SPEC, preludes=PRE,
+    Unit('C15_core', 'C15', CORE_PROVE, types=TYPES, spec=CORE_SPEC, type_spec=TYPE_SPEC, preludes=PRE,
          broadcast=('l0', 'ax_vec_from_refl'),
          notes='Vector/Matrix plumbing, Matrix::new and reshape_mut with the wf invariant'),
 ]
